@@ -73,9 +73,13 @@ func (d *DebugDialer) Dial(ctx context.Context, urlstr string) (conn net.Conn, b
 		// We must split response inside buffered bytes from other received
 		// bytes from server.
 		p := resBuf.Bytes()
-		n := bytes.Index(p, headEnd)
-		h := n + len(headEnd)         // Head end index.
-		n = h + int(resContentLength) // Body end index.
+		// If no complete response head was received (e.g. the dial failed or
+		// the peer hung up), report whatever bytes there are.
+		h, n := len(p), len(p)
+		if i := bytes.Index(p, headEnd); i != -1 {
+			h = i + len(headEnd)          // Head end index.
+			n = h + int(resContentLength) // Body end index.
+		}
 
 		onResponse(p[:n])
 
